@@ -17,6 +17,7 @@ import (
 	"bytes"
 	"errors"
 	"fmt"
+	"math"
 	"os"
 	"reflect"
 	"testing"
@@ -62,6 +63,14 @@ type c25S2 struct {
 }
 
 func (*c25S2) c25Mark() {}
+
+// c25F carries floats in every position a codec treats differently (field, slice element, map value, 32 bit).
+type c25F struct {
+	F float64
+	L []float64
+	M map[string]float64
+	G float32
+}
 
 type c25Unreg struct{ X int }
 
@@ -182,7 +191,8 @@ func c25EntryKinds() []c25EntryKind {
 type c25Msg struct {
 	Desc string
 	v    any
-	home int // entry kind registered for exactly this message's type (-1: none)
+	home int  // entry kind registered for exactly this message's type (-1: none)
+	edge bool // unusual value (ill-formed UTF-8, non-finite float): also run whenever a catch-all entry is registered
 }
 
 func c25Messages(r *verifRNG) []c25Msg {
@@ -197,7 +207,11 @@ func c25Messages(r *verifRNG) []c25Msg {
 		if _, isCmd := v.(interface{ c25IsCommand() }); isCmd {
 			h = 5
 		}
-		out = append(out, c25Msg{d, v, h})
+		out = append(out, c25Msg{d, v, h, false})
+	}
+	edge := func(d string, v any) {
+		add(d, v)
+		out[len(out)-1].edge = true
 	}
 	str := func() string {
 		return []string{"", "x", "héllo wörld", "a\x00b", "{\"k\":1}", "AB", "12345678901234567890123456789012345678901234567890"}[r.intn(7)]
@@ -262,6 +276,31 @@ func c25Messages(r *verifRNG) []c25Msg {
 	add("*Toy", &c25Toy{S: str()})
 	add("*Toy2", &c25Toy2{S: str()})
 	add("*Coll", &c25Coll{S: str()})
+	// strings that are not well-formed UTF-8 (a Go string is any byte sequence): lone continuation/0xff bytes,
+	// truncated multi-byte sequence, UTF-16 surrogate half, overlong form — as a field, slice element, map key,
+	// nested field, and bare
+	bad := []string{"\xff\xfe", "ab\xc3", "\xed\xa0\x80", "\xc0\xaf", "ok\x80ok"}
+	for i, bs := range bad {
+		edge(fmt.Sprintf("string ill-formed utf8 #%d", i), bs)
+	}
+	edge("*S1 ill-formed utf8 field", &c25S1{ID: 1, Name: bad[r.intn(len(bad))]})
+	edge("*S1 ill-formed utf8 slice", &c25S1{ID: 2, Tags: []string{"fine", bad[r.intn(len(bad))]}})
+	edge("*S1 ill-formed utf8 map key", &c25S1{ID: 3, M: map[string]int{bad[r.intn(len(bad))]: 7}})
+	edge("*S1 ill-formed utf8 nested", &c25S1{ID: 4, In: c25Inner{B: bad[r.intn(len(bad))]}, P: &c25Inner{B: bad[r.intn(len(bad))]}})
+	edge("*S2 ill-formed utf8 field", &c25S2{K: bad[r.intn(len(bad))], V: 1})
+	edge("*testpb.Reply ill-formed utf8", &testpb.Reply{Content: bad[r.intn(len(bad))]})
+	edge("*Toy ill-formed utf8", &c25Toy{S: bad[r.intn(len(bad))]})
+	// non-finite floats: a codec must carry them or refuse them, never turn them into another number
+	nf := []float64{math.Inf(1), math.Inf(-1), math.NaN()}
+	for i, f := range nf {
+		edge(fmt.Sprintf("float64 non-finite #%d", i), f)
+		edge(fmt.Sprintf("*S1 non-finite field #%d", i), &c25S1{ID: 5, Score: f})
+	}
+	edge("float32 +Inf", float32(math.Inf(1)))
+	edge("*F non-finite slice", &c25F{F: 1.5, L: []float64{1, nf[r.intn(3)], 3}})
+	edge("*F non-finite map", &c25F{M: map[string]float64{"a": nf[r.intn(3)], "b": 2}})
+	edge("*F non-finite float32", &c25F{G: float32(nf[r.intn(2)])})
+	edge("*F finite extremes", &c25F{F: math.MaxFloat64, L: []float64{math.SmallestNonzeroFloat64, -0.0, 1e-310}, G: math.MaxFloat32})
 	// unsupported by everything
 	add("*Unreg", &c25Unreg{X: 1})
 	add("chan", make(chan int))
@@ -279,7 +318,73 @@ func c25Equal(a, b any) bool {
 		return false
 	}
 	defer func() { _ = recover() }()
-	return reflect.DeepEqual(a, b)
+	return c25DeepEq(reflect.ValueOf(a), reflect.ValueOf(b))
+}
+
+// c25DeepEq is reflect.DeepEqual except that floats are compared as values a codec must preserve:
+// NaN equals NaN, and -0 differs from +0 only in sign (treated as equal).
+func c25DeepEq(a, b reflect.Value) bool {
+	if !a.IsValid() || !b.IsValid() {
+		return a.IsValid() == b.IsValid()
+	}
+	if a.Type() != b.Type() {
+		return false
+	}
+	switch a.Kind() {
+	case reflect.Float32, reflect.Float64:
+		x, y := a.Float(), b.Float()
+		return x == y || (math.IsNaN(x) && math.IsNaN(y))
+	case reflect.Pointer, reflect.Interface:
+		if a.IsNil() || b.IsNil() {
+			return a.IsNil() == b.IsNil()
+		}
+		return c25DeepEq(a.Elem(), b.Elem())
+	case reflect.Struct:
+		for i := 0; i < a.NumField(); i++ {
+			if !c25DeepEq(a.Field(i), b.Field(i)) {
+				return false
+			}
+		}
+		return true
+	case reflect.Slice:
+		if a.IsNil() != b.IsNil() {
+			return false
+		}
+		fallthrough
+	case reflect.Array:
+		if a.Len() != b.Len() {
+			return false
+		}
+		for i := 0; i < a.Len(); i++ {
+			if !c25DeepEq(a.Index(i), b.Index(i)) {
+				return false
+			}
+		}
+		return true
+	case reflect.Map:
+		if a.IsNil() != b.IsNil() || a.Len() != b.Len() {
+			return false
+		}
+		it := a.MapRange()
+		for it.Next() {
+			bv := b.MapIndex(it.Key())
+			if !bv.IsValid() || !c25DeepEq(it.Value(), bv) {
+				return false
+			}
+		}
+		return true
+	case reflect.Bool:
+		return a.Bool() == b.Bool()
+	case reflect.Int, reflect.Int8, reflect.Int16, reflect.Int32, reflect.Int64:
+		return a.Int() == b.Int()
+	case reflect.Uint, reflect.Uint8, reflect.Uint16, reflect.Uint32, reflect.Uint64, reflect.Uintptr:
+		return a.Uint() == b.Uint()
+	case reflect.String:
+		return a.String() == b.String()
+	case reflect.Chan, reflect.Func, reflect.UnsafePointer:
+		return a.Pointer() == b.Pointer()
+	}
+	return false
 }
 
 func c25Short(v any) string {
@@ -332,6 +437,7 @@ func TestVerifC25(t *testing.T) {
 	// what WithClientSerializers does for concrete non-proto types bound to registry-based serializers
 	types.RegisterSerializerType(new(c25S1), remote.NewCBORSerializer())
 	types.RegisterSerializerType(new(c25S2), remote.NewJSONSerializer())
+	types.RegisterSerializerType(new(c25F), remote.NewCBORSerializer())
 
 	// all ordered selections of 1..4 distinct entry kinds
 	var configs [][]int
@@ -382,6 +488,9 @@ func TestVerifC25(t *testing.T) {
 				// delivery commands whenever the delivery serializer is (they reach it through dispatch.Serialize)
 				own := false
 				for _, k := range cfg {
+					if m.edge && (k == 3 || k == 4 || k == 10) && (mi+ci)%2 == 0 {
+						own = true
+					}
 					if k == m.home || (k == 5 && len(m.Desc) > 10 && m.Desc[:10] == "*commands.") {
 						own = true
 					}
